@@ -5,4 +5,6 @@ import TrackVerif.Common.Dec
 import TrackVerif.Common.GenTypes
 import TrackVerif.Driver.Dec
 import TrackVerif.TA.Driver
+import TrackVerif.TA.PropsC02
 import TrackVerif.TA.PropsC10
+import TrackVerif.TA.PropsC15
